@@ -589,6 +589,14 @@ func (g *c15) randomSize(n int) int32 {
 
 // sizesFor picks the page sizes paged over one collection.
 func (g *c15) sizesFor(n int, all bool) []int32 {
+	if n > 60 {
+		// a thousand items: only page sizes that keep the chain short, around the cap
+		out := []int32{0, 1000, 5000, int32(-1 - g.r.Intn(5)), int32(g.r.Range(300, 1100))}
+		if n != 1001 {
+			out = append(out, 999, 1001, 50)
+		}
+		return out
+	}
 	if all {
 		return append(append([]int32{}, pageSizes...), g.randomSize(n), g.randomSize(n))
 	}
@@ -606,6 +614,18 @@ func (g *c15) sizesFor(n int, all bool) []int32 {
 		}
 	}
 	return out
+}
+
+// tokenStreamSize: page size used with a corrupted / unexpected first token; now and then negative
+// (both inputs bad at once).
+func (g *c15) tokenStreamSize(n int) int32 {
+	if g.r.Chance(8) {
+		return int32(-1 - g.r.Intn(5))
+	}
+	if n > 60 {
+		return []int32{0, 1000, 5000, 400}[g.r.Intn(4)]
+	}
+	return g.sizesFor(n, false)[1+g.r.Intn(5)]
 }
 
 // badKeyTokens: the malformed / unexpected stream for the key-token servers.
@@ -636,12 +656,11 @@ func (g *c15) badKeyTokens(keys []string) [][2]string {
 	add("other-field", base64.StdEncoding.EncodeToString([]byte{0x12, 0x01, 'a', 0x18, 0x01})) // name + unknown field
 	// well-formed tokens naming keys that are not in the collection
 	absent := []string{" ", "~~~~~~~~~~~~~", "a", "ab", "b", "A", "0", "zzz"}
-	for _, k := range keys {
-		if g.r.Chance(30) {
-			absent = append(absent, k+" ", k+"~")
-			if len(k) > 1 {
-				absent = append(absent, k[:len(k)-1])
-			}
+	for i := 0; i < 4 && len(keys) > 0; i++ {
+		k := keys[g.r.Intn(len(keys))]
+		absent = append(absent, k+" ", k+"~")
+		if len(k) > 1 {
+			absent = append(absent, k[:len(k)-1])
 		}
 	}
 	have := map[string]bool{}
@@ -700,6 +719,8 @@ func genC15(o *vcoq.Out, r *vcoq.Rand, tier string) error {
 	}
 	if thorough {
 		ns = append(ns, 999, 1000, 1001)
+	} else {
+		ns = append(ns, 1001) // the cap of 1000 is only visible on a collection larger than it
 	}
 
 	all := rpcs()
@@ -726,19 +747,12 @@ func genC15(o *vcoq.Out, r *vcoq.Rand, tier string) error {
 			}
 			big := n > 60
 			for _, size := range g.sizesFor(n, thorough && !big) {
-				if big && size > 0 && size < 7 {
-					continue // thousands of calls over a thousand items each: covered by size 7
-				}
 				g.chain(rp, in, size, "", "empty")
 			}
 			// corrupted / unexpected first tokens: every 3rd collection in quick, all in thorough
-			if thorough && !big || n%3 == 0 || n >= 49 && n <= 51 {
+			if thorough && !big || n%3 == 0 || n >= 49 && n <= 51 || n == 1001 {
 				for _, bt := range g.badKeyTokens(keys) {
-					size := g.sizesFor(n, false)[1+g.r.Intn(5)]
-					if big && size < 7 {
-						size = 7
-					}
-					g.chain(rp, in, size, bt[1], bt[0])
+					g.chain(rp, in, g.tokenStreamSize(n), bt[1], bt[0])
 				}
 				// a token naming a key that is deleted afterwards
 				if n >= 2 && !big {
@@ -765,18 +779,11 @@ func genC15(o *vcoq.Out, r *vcoq.Rand, tier string) error {
 		}
 		big := n > 60
 		for _, size := range g.sizesFor(n, thorough && !big) {
-			if big && size > 0 && size < 7 {
-				continue
-			}
 			g.chain(wrp, in, size, "", "empty")
 		}
-		if thorough && !big || n%3 == 0 || n >= 49 && n <= 51 {
+		if thorough && !big || n%3 == 0 || n >= 49 && n <= 51 || n == 1001 {
 			for _, bt := range g.badWasteTokens(n) {
-				size := g.sizesFor(n, false)[1+g.r.Intn(5)]
-				if big && size < 7 {
-					size = 7
-				}
-				g.chain(wrp, in, size, bt[1], bt[0])
+				g.chain(wrp, in, g.tokenStreamSize(n), bt[1], bt[0])
 			}
 		}
 	}
